@@ -234,7 +234,7 @@ def run_binary(chk, mode, build, binary, cases, tag, stack_every=0):
     return recs, raws
 
 
-def judge(chk, recs, tag):
+def judge(chk, recs, tag, harness_fatal=True):
     """-> dict index -> {"c": [clauses], "keys": [1-based look indices]}"""
     jobs = []
     for k in range(0, len(recs), BATCH):
@@ -249,7 +249,7 @@ def judge(chk, recs, tag):
         j = res.printed("JUDGED")
         if len(j) != 1 or j[0]["n"] != n:
             raise core.ToolError("StartupJudge did not report on all %d records: %s" % (n, res.out[-1500:]))
-        if j[0]["harness"]:
+        if j[0]["harness"] and harness_fatal:
             raise core.ToolError("launcher did not deliver the vectors it was asked to (records %s of %s)" % (j[0]["harness"][:5], path))
         return k, res, j[0]["bad"]
 
@@ -260,6 +260,63 @@ def judge(chk, recs, tag):
             for e in b:
                 bad[k + e["i"] - 1] = e
     return bad
+
+
+# --------------------------------------------------------------------------------------------
+# anti-vacuity canaries: corrupted copies of accepted real records must all be rejected, each by the
+# clause that the corruption concerns
+# --------------------------------------------------------------------------------------------
+def canaries(chk, recs, bad):
+    import copy
+    out = []
+
+    def pick(pred):
+        for i, r in enumerate(recs):
+            if i not in bad and r["status"] == "exit0" and pred(r):
+                return copy.deepcopy(r)
+        return None
+
+    r = pick(lambda r: len(r["kargv"]) >= 2)
+    if r:
+        c = copy.deepcopy(r); c["args_os"] = c["args_os"][1:]; out.append(("args", "first argument missing", c))
+        c = copy.deepcopy(r); c["argc"] = [c["argc"][0] - 1, c["argc"][1]]; out.append(("args", "len() one short", c))
+    r = pick(lambda r: any(l["varu"]["k"] == "ok" for l in r["look"]) and any(l["varu"]["k"] == "missing" for l in r["look"]))
+    if r:
+        c = copy.deepcopy(r)
+        i = [l["varu"]["k"] for l in c["look"]].index("missing")
+        if c["look"][i]["key"]:
+            c["look"][i]["varu"] = {"k": "ok", "v": [120]}
+            out.append(("lookup", "phantom hit", c))
+        c = copy.deepcopy(r)
+        i = [l["varu"]["k"] for l in c["look"]].index("ok")
+        if c["look"][i]["key"]:
+            c["look"][i]["var"] = {"k": "missing"}
+            out.append(("lookup", "exact entry missed by var", c))
+    r = pick(lambda r: r["kaux"]["uid"] != r["kaux"]["gid"])
+    if r:
+        c = copy.deepcopy(r); c["aux"]["uid"], c["aux"]["gid"] = c["aux"]["gid"], c["aux"]["uid"]
+        out.append(("aux", "uid and gid swapped", c))
+    r = pick(lambda r: True)
+    if r:
+        c = copy.deepcopy(r); c["aux"]["random"] = c["aux"]["random"][:15] + [(c["aux"]["random"][15] + 1) % 256]
+        out.append(("aux", "last random byte differs", c))
+        c = copy.deepcopy(r); c["mono"][1] = [c["mono"][0][0] - 1, c["mono"][0][1]]
+        out.append(("clock", "tiny-std reading before the first system-call reading", c))
+        c = copy.deepcopy(r); c["real"][1] = [c["real"][2][0] + 5, 0]
+        out.append(("clock", "tiny-std wall clock after the second system-call reading", c))
+        c = copy.deepcopy(r); c["reloc"][19] = [0]; out.append(("reloc", "last table entry wrong", c))
+        c = copy.deepcopy(r); c["status"] = "crashed:sig11"; out.append(("status", "crashed", c))
+    r = pick(lambda r: r["st"] and len(r["kargv"]) >= 1 and r["kargv"][0])
+    if r:
+        c = copy.deepcopy(r); c["st"][1] = c["st"][1] + 1 if c["st"][1] else 0
+        out.append(("stack", "argv[0] pointer of the real stack moved by one byte", c))
+    if not out:
+        return 0
+    verdicts = judge(chk, [c for _, _, c in out], "canary", harness_fatal=False)
+    missed = [(cl, what) for i, (cl, what, _) in enumerate(out) if i not in verdicts or cl not in verdicts[i]["c"]]
+    if missed:
+        raise core.ToolError("StartupJudge accepted corrupted records (vacuous clause?): %s" % missed)
+    return len(out)
 
 
 # --------------------------------------------------------------------------------------------
@@ -471,8 +528,10 @@ def run(tier):
     nontrivial = set()
     lookups = 0
     stacks = 0
+    ncanary = 0
     for (mode, build), (recs, raws) in sorted(results.items()):
         bad = judge(chk, recs, "%s_%s" % (mode, build))
+        ncanary += canaries(chk, recs, bad)
         chk.evaluations += len(recs)
         chk.traces += len(recs) - len(bad)
         for i, rec in enumerate(recs):
@@ -499,6 +558,7 @@ def run(tier):
             core.log("LEAD (not a verdict): %s: %d relocated word(s) of the running static-PIE probe do not hold base + addend: %s" % (
                 k, a["unrelocated_count"], a["unrelocated_words"][:3]))
     chk.extra["model_leads_replayed"] = [{"env": [show(e) for e in e_], "key": show(k)} for e_, k in leads]
+    chk.extra["canaries_rejected"] = ncanary
     chk.extra["execs"] = chk.evaluations
     chk.extra["lookups_judged"] = lookups
     chk.extra["real_initial_stacks_judged"] = stacks
@@ -531,3 +591,22 @@ def replay(path):
     print(json.dumps(recs[0])[:3000])
     print("REJECTED %s" % bad[0] if bad else "accepted")
     return 1 if bad else 0
+
+
+def selftest():
+    """(1) the canaries of a quick run (corrupted records rejected clause by clause), (2) one stored negative
+    patch must yield a VIOLATION, one benign patch must not."""
+    rc = run("quick")
+    if rc != 0:
+        print("selftest: quick run on the unchanged tree did not exit 0")
+        return 1
+    ev = json.load(open(os.path.join(core.out_dir("evidence"), "C07.json")))
+    print("selftest: %d canaries rejected" % ev["coverage"].get("canaries_rejected", 0))
+    ok = ev["coverage"].get("canaries_rejected", 0) > 0
+    for slug, want in (("C07-env-no-eq-check", 0), ("C07-benign-aux-bound", 1)):
+        p = subprocess.run([os.path.join(core.VERIF, "bin", "mutant-test"), os.path.join(core.VERIF, "seeded", slug, "patch.diff"), "C07"],
+                           stdout=subprocess.PIPE, stderr=subprocess.STDOUT, timeout=3000)
+        print("selftest: %s -> mutant-test rc=%d (expected %d)" % (slug, p.returncode, want))
+        ok = ok and p.returncode == want
+    print("selftest ok" if ok else "selftest FAILED")
+    return 0 if ok else 2
